@@ -112,7 +112,7 @@ fn bookkeeping_case(rng: &mut Rng, idx: u64, out: &mut Out) {
     let kind = (idx % 3) as usize;
     let acts = [Act::Tanh, Act::Sigmoid, Act::Linear];
     let depth = rng.range(3, 6);
-    let mut cfg = chain(rng, kind, depth, &acts, false, true);
+    let mut cfg = chain(rng, kind, depth, &acts, (idx / 3) % 2 == 1, true);
     cfg.skipacc = *rng.pick(&[Acc::Add, Acc::Sub, Acc::Mul, Acc::Mean]);
     let cands = candidates(&cfg);
     let params = gen_params(&cfg, rng, -1.0, 1.0).unwrap();
@@ -224,7 +224,11 @@ fn gradient_case(rng: &mut Rng, idx: u64, out: &mut Out) {
     let kind = (idx % 4) as usize;
     let acts = [Act::Tanh, Act::Sigmoid, Act::Linear, Act::Leaky];
     let depth = rng.range(2, 4);
-    let mut cfg = chain(rng, kind, depth, &acts, false, true);
+    // every other network may contain max-pool layers (as sources, targets and chain links)
+    let mut cfg = chain(rng, kind, depth, &acts, (idx / 4) % 2 == 1, true);
+    if cfg.layers.iter().any(|l| matches!(l, LCfg::Pool { .. })) {
+        out.count("gradient_networks_with_max_pool_layers", 1);
+    }
     if idx % 7 == 3 {
         wrap_blocks(rng, &mut cfg, 0.4);
     }
